@@ -569,14 +569,241 @@ def table_row_src(fn: ast.FunctionDef) -> str:
             f"  row <- alloc ;\n  Ctx row {S('row')} [] [] (seq_all (map render_table_cell_src (rt_kids r))) (fun _ => Done).\n")
 
 
+# ------------------------------------------------------------------ clean_astext
+def clean_astext_src(fn: ast.FunctionDef) -> str:
+    """node = node.deepcopy(); [blank image alts]; remove every node of some classes; return node.astext()
+    -> the text of the node where elements of the removed classes contribute nothing"""
+    body = [s for s in fn.body if not (isinstance(s, ast.Expr) and const_str(s.value) is not None)]
+    need([a.arg for a in fn.args.args] == ["node"], "clean_astext signature")
+    need(body and ast.unparse(body[0]) == "node = node.deepcopy()", "clean_astext must work on a deep copy (first statement)")
+    need(ast.unparse(body[-1]) == "return node.astext()", "clean_astext must return node.astext()")
+    removed = []
+    for s in body[1:-1]:
+        need(isinstance(s, ast.For) and isinstance(s.target, ast.Name) and len(s.body) == 1 and not s.orelse, "clean_astext loop")
+        v, it, b = s.target.id, ast.unparse(s.iter), ast.unparse(s.body[0])
+        if it == "findall(node)(nodes.image)" and b == f"{v}['alt'] = ''":
+            continue                      # an attribute, not text: no effect on astext()
+        need(it.startswith("list(findall(node)(nodes.") and it.endswith("))") and b == f"{v}.parent.remove({v})",
+             f"clean_astext loop {it} / {b}")
+        removed.append(it[len("list(findall(node)(nodes."):-2])
+    chain = "".join(f"if str_eqb tg {S(c)} then Some []\n      else " for c in removed)
+    return ("Fixpoint astext_clean_src (n : node) : option str :=\n  match n with\n  | Text _ s => Some s\n  | Elem _ tg _ cs =>\n      "
+            + chain + "(fix go (l : list node) : option str :=\n              match l with\n              | [] => Some []\n"
+            "              | c :: r => match astext_clean_src c, go r with\n                          | Some a, Some b => Some (a ++ b)\n"
+            "                          | _, _ => None\n                          end\n              end) cs\n  end.\n")
+
+
+# ------------------------------------------------------------------ generate_heading_target (registry part)
+def heading_target_src(fn: ast.FunctionDef) -> str:
+    body = [ast.unparse(s) for s in fn.body if not (isinstance(s, ast.Expr) and const_str(s.value) is not None)]
+    need([a.arg for a in fn.args.args] == ["self", "token", "level", "node", "title_node"], "generate_heading_target signature")
+    RULES = {
+        "name = nodes.fully_normalize_name(implicit_text)": "let name := o_norm_name OR implicit_text in\n      ",
+        "explicit_names = node['names']": "explicit_names <-- get_names o tg ;;\n      ",
+        "node['names'] = [name]": "_ <-- set_names o tg [name] ;;\n      ",
+        "self.document.note_implicit_target(node, node)": "ms <-- note_target' C OR o tg false ;;\n      ",
+        "node['names'] = explicit_names + node['names']":
+            "now <-- get_names o tg ;;\n      _ <-- set_names o tg (explicit_names ++ now) ;;\n      ",
+    }
+    need(body and body[0] == "implicit_text = clean_astext(title_node)", "generate_heading_target: first statement")
+    out = ""
+    i = 1
+    while i < len(body) and body[i] in RULES:
+        out += RULES[body[i]]
+        i += 1
+    # the slug part runs only for level <= heading_anchors (0 in the model's static configuration)
+    need(i < len(body) and body[i] == "if level > self.md_config.heading_anchors:\n    return",
+         f"generate_heading_target statement: {body[i][:80] if i < len(body) else 'end'}")
+    need("ms <--" in out, "generate_heading_target: no target registration")
+    return ("Definition heading_target_src (o : N) (tg : str) (title : node) : fop (list node) :=\n"
+            "  match astext_clean_src title with\n  | None => ffail ENotModelled\n  | Some implicit_text =>\n      "
+            + out + "fret ms\n  end.\n")
+
+
+# ------------------------------------------------------------------ templates: statements fixed up to named holes
+import re as _re
+
+
+def match_template(text: str, template: str, what: str) -> dict:
+    pat = _re.escape(template)
+    pat = _re.sub(r"<<(\w+)>>", lambda m: f"(?P<{m.group(1)}>.+?)", pat.replace(r"\<\<", "<<").replace(r"\>\>", ">>"))
+    m = _re.fullmatch(pat, text, _re.S)
+    need(m is not None, f"{what}: the statements are not the expected ones:\n{text}")
+    return m.groupdict()
+
+
+def str_tuple(src: str, what: str):
+    e = ast.parse(src, mode="eval").body
+    need(isinstance(e, (ast.Tuple, ast.List)) and all(const_str(x) is not None for x in e.elts), f"{what}: literal strings expected")
+    return "[" + "; ".join(S(const_str(x)) for x in e.elts) + "]"
+
+
+def int_cmp(src: str, names: dict, what: str) -> str:
+    """a comparison / conjunction over the integers in `names` (python name -> Coq variable)"""
+    e = ast.parse(src, mode="eval").body
+
+    def term(x):
+        if isinstance(x, ast.Name) and x.id in names:
+            return names[x.id]
+        if isinstance(x, ast.Constant) and isinstance(x.value, int):
+            return str(x.value)
+        if isinstance(x, ast.BinOp) and isinstance(x.op, ast.Add):
+            return f"({term(x.left)} + {term(x.right)})"
+        raise GenError(f"{what}: term {ast.unparse(x)}")
+
+    def go(x):
+        if isinstance(x, ast.BoolOp) and isinstance(x.op, ast.And):
+            return "(" + " && ".join(go(v) for v in x.values) + ")"
+        if isinstance(x, ast.Compare) and len(x.ops) == 1:
+            a, b = term(x.left), term(x.comparators[0])
+            op = x.ops[0]
+            if isinstance(op, ast.Gt):
+                return f"({b} <? {a})"
+            if isinstance(op, ast.Lt):
+                return f"({a} <? {b})"
+            if isinstance(op, ast.LtE):
+                return f"({a} <=? {b})"
+            if isinstance(op, ast.GtE):
+                return f"({b} <=? {a})"
+            if isinstance(op, ast.Eq):
+                return f"({a} =? {b})"
+            if isinstance(op, ast.NotEq):
+                return f"negb ({a} =? {b})"
+        raise GenError(f"{what}: test {ast.unparse(x)}")
+    return go(e)
+
+
+T_SECTION_STATE = """parent_level = max((section_level for section_level in self._level_to_section if <<is_parent>>))
+parent = self._level_to_section[parent_level]
+if <<warn>>:
+    msg = f'Non-consecutive header level increase; H{parent_level} to H{level}'
+    if parent_level == 0:
+        msg = f'Document headings start at H{level}, not H1'
+    self.create_warning(msg, MystWarnings.<<wtag>>, line=section.line, append_to=self.current_node)
+parent.append(section)
+self._level_to_section[level] = section
+self._level_to_section = {section_level: section for section_level, section in self._level_to_section.items() if <<keep>>}"""
+
+T_HEADING = """level = int(token.tag[1]) + self._heading_offset
+parent_of_temp_root = self.md_env.get('temp_root_node', None) is not None and self.current_node == self.md_env['temp_root_node']
+if not (parent_of_temp_root or isinstance(self.current_node, nodes.document | nodes.section)):
+    rubric = nodes.rubric(token.content, '', level=level)
+    self.add_line_and_source_path(rubric, token)
+    self.copy_attributes(token, rubric, <<rkeys>>)
+    with self.current_node_context(rubric, append=True):
+        self.render_children(token)
+    self.generate_heading_target(token, level, rubric, rubric)
+    return
+new_section = nodes.section()
+self.add_line_and_source_path(new_section, token)
+title_node = nodes.title(token.children[0].content if token.children else '')
+self.add_line_and_source_path(title_node, token)
+new_section.append(title_node)
+self.copy_attributes(token, new_section, <<skeys>>)
+if <<mjtest>> and self.blocks_mathjax_processing:
+    new_section['classes'].extend(<<mjclasses>>)
+self.update_section_level_state(new_section, level)
+with self.current_node_context(title_node):
+    self.render_children(token)
+self.generate_heading_target(token, level, new_section, title_node)
+self.current_node = new_section"""
+
+T_TABLE = """assert token.children
+header = token.children[0]
+assert header.children
+header_row = header.children[0]
+assert header_row.children
+table = nodes.table()
+table['classes'] += <<classes>>
+self.copy_attributes(token, table, <<keys>>)
+self.add_line_and_source_path(table, token)
+self.current_node.append(table)
+maxcols = len(header_row.children)
+colwidths = [<<total>> // maxcols] * maxcols
+tgroup = nodes.tgroup(cols=len(colwidths))
+table += tgroup
+for colwidth in colwidths:
+    colspec = nodes.colspec(colwidth=colwidth)
+    tgroup += colspec
+thead = nodes.thead()
+tgroup += thead
+with self.current_node_context(thead):
+    self.render_table_row(header_row)
+if len(token.children) > 1:
+    body = token.children[1]
+    tbody = nodes.tbody()
+    tgroup += tbody
+    with self.current_node_context(tbody):
+        for body_row in body.children or []:
+            self.render_table_row(body_row)"""
+
+
+def section_state_src(fn, wtags) -> str:
+    h = match_template(norm(fn), T_SECTION_STATE, "update_section_level_state")
+    tag = wtags.get(h["wtag"])
+    need(tag is not None, "update_section_level_state warning")
+    n = {"level": "level", "section_level": "section_level", "parent_level": "parent_level"}
+    return ("(* update_section_level_state: the tests of the three places that read the level map, and the warning *)\n"
+            f"Definition sect_is_parent_src (level section_level : N) : bool := {int_cmp(h['is_parent'], n, 'parent test')}.\n"
+            f"Definition sect_keep_src (level section_level : N) : bool := {int_cmp(h['keep'], n, 'keep test')}.\n"
+            f"Definition sect_warn_src (level parent_level : N) : bool := {int_cmp(h['warn'], n, 'warning test')}.\n"
+            f"Definition sect_warning_src : str := {S(tag)}.\n")
+
+
+def heading_src(fn) -> str:
+    h = match_template(norm(fn), T_HEADING, "render_heading")
+    mj = int_cmp(h["mjtest"], {"level": "level"}, "mathjax test")
+    return ("(* render_heading: the statements are fixed (gen/c02_pysrc.py T_HEADING) up to the copied keys, the MathJax test and\n"
+            "   classes; update_section_level_state = LevelParent (warning) + OpenSection, `self.current_node = new_section`\n"
+            "   included; _heading_offset = 0 and no temp_root_node (no nested parse) in the model *)\n"
+            "Definition render_heading_src (t : tok) (ks : list rt) : prog :=\n"
+            "  match heading_level (tag t) with\n  | None => Fail (EPy ValueError)\n  | Some level =>\n"
+            "      CurTag (fun ct =>\n        if negb (is_section_tag ct) then\n          o <- alloc ;\n"
+            f"          '(a, msgs) <- copy_attributes_src t o {S('rubric')} {str_tuple(h['rkeys'], 'rubric keys')} [] [({S('level')}, [show level])] ;\n"
+            f"          Detached o {S('rubric')} a msgs (render_children ks) (fun r =>\n"
+            f"            ms <- heading_target_src o {S('rubric')} r ;\n            Append (add_children r ms) Done)\n"
+            "        else\n          o <- alloc ;\n          ot <- alloc ;\n"
+            f"          '(a, msgs) <- copy_attributes_src t o {S('section')} {str_tuple(h['skeys'], 'section keys')} [] [] ;\n"
+            f"          let a := if {mj} && c_mathjax_block C\n                   then add_classes a {str_tuple(h['mjclasses'], 'mathjax classes')} else a in\n"
+            "          LevelParent level (fun pl =>\n            match pl with\n            | None => Fail (EPy ValueError)\n            | Some pl =>\n"
+            "                let open :=\n"
+            f"                    OpenSection level (Elem o {S('section')} a [])\n"
+            f"                      (Ctx ot {S('title')} [] [] (render_children ks) (fun title =>\n"
+            f"                         ms <- heading_target_src o {S('section')} title ;\n"
+            "                         append_all (msgs ++ ms) Done)) in\n"
+            "                if sect_warn_src level pl\n                then (w <- create_warning sect_warning_src ; Append w open)\n                else open\n"
+            "            end))\n  end.\n")
+
+
+def table_src(fn) -> str:
+    h = match_template(norm(fn), T_TABLE, "render_table")
+    need(h["total"].isdigit(), "render_table column width total")
+    return ("(* render_table: statements fixed (T_TABLE) up to the classes, the copied keys and the width total; one colspec per\n"
+            "   cell of the header row, the rows by render_table_row_src *)\n"
+            "Definition render_table_src (t : tok) (ks : list rt) : prog :=\n"
+            "  match ks with\n  | [] => Fail (EPy AssertionError)\n  | header :: rest =>\n"
+            "      match rt_kids header with\n      | [] => Fail (EPy AssertionError)\n      | header_row :: _ =>\n"
+            "          match rt_kids header_row with\n          | [] => Fail (EPy AssertionError)\n          | cells =>\n"
+            "              let maxcols := length cells in\n              o <- alloc ;\n"
+            f"              '(a, msgs) <- copy_attributes_src t o {S('table')} {str_tuple(h['keys'], 'table keys')} [] [({S('classes')}, {str_tuple(h['classes'], 'table classes')})] ;\n"
+            f"              Ctx o {S('table')} a msgs\n                  (og <- alloc ;\n"
+            f"                   Ctx og {S('tgroup')} [({S('cols')}, [show (N.of_nat maxcols)])] []\n"
+            f"                       (colspecs maxcols ({h['total']} / N.of_nat maxcols)\n                          (oh <- alloc ;\n"
+            f"                           Ctx oh {S('thead')} [] [] (render_table_row_src header_row) (fun _ =>\n"
+            "                             match rest with\n                             | [] => Done\n                             | body :: _ =>\n"
+            "                                 ob <- alloc ;\n"
+            f"                                 Ctx ob {S('tbody')} [] [] (seq_all (map render_table_row_src (rt_kids body)))\n"
+            "                                     (fun _ => Done)\n                             end)))\n                       (fun _ => Done))\n"
+            "                  (fun _ => Done)\n          end\n      end\n  end.\n")
+
+
 # ------------------------------------------------------------------ methods pinned by their text
 def norm(fn) -> str:
     body = [s for s in fn.body if not (isinstance(s, ast.Expr) and const_str(s.value) is not None)]
     return "\n".join(ast.unparse(s) for s in body)
 
 
-SHAPES = ["clean_astext", "current_node_context", "render_heading", "render_table", "render_children",
-          "_render_tokens", "generate_heading_target", "update_section_level_state"]
+SHAPES = ["current_node_context", "render_children", "_render_tokens"]
 
 METHODS = ["render_paragraph", "render_em", "render_strong", "render_code_inline", "render_bullet_list",
            "render_ordered_list", "render_list_item", "render_blockquote", "render_hr", "render_hardbreak",
@@ -614,10 +841,17 @@ def generate(repo=None):
     need("copy_attributes" in fns and "renderInlineAsText" in fns, "copy_attributes / renderInlineAsText missing")
     out.append("(* copy_attributes: one iteration of `for key, value in token.attrs.items()` per list element *)")
     out.append(indent(copy_attributes_src(fns["copy_attributes"])))
+    out.append("(* clean_astext *)")
+    out.append(indent(clean_astext_src(fns["clean_astext"])))
+    out.append("(* generate_heading_target: the implicit target (the slug part is off: heading_anchors = 0) *)")
+    out.append(indent(heading_target_src(fns["generate_heading_target"])))
+    out.append(indent(section_state_src(fns["update_section_level_state"], {k: v for k, v in wt.items()})))
+    out.append(indent(heading_src(fns["render_heading"])))
     out.append("(* render_table_row: one cell per child *)")
     out.append(indent(table_row_src(fns["render_table_row"])))
     out.append("(* renderInlineAsText *)")
     out.append(indent(inline_as_text_src(fns["renderInlineAsText"])))
+    out.append(indent(table_src(fns["render_table"])))
     for name in METHODS:
         need(name in fns, f"{name} missing")
         term = Method(fns[name], wt).translate()
